@@ -431,6 +431,39 @@ pub fn run_check(ctx: &Ctx) -> i32 {
         });
         ctx.level_done(&format!("{} edit scripts of 2-3 calls (remove / set / rename) x every <a ...> tag of <=3 pieces: one re-read reflects all of them", scripts.len()));
     }
+    // <font> in foreign content: with a color / face / size attribute it leaves foreign content
+    // (an HTML element), otherwise it is a foreign element
+    {
+        let p = Prepared::new(base_cfg("UTF-8", lookup_ops(encoding_rs::UTF_8))).unwrap();
+        let attrs = ["", " color=x", " FACE=y", " size", " a=b", " a color=\"z\"", " sizes=1", " Color"];
+        let mut jobs = vec![];
+        for (pre, fns) in [("<svg>", Ns::Svg), ("<math>", Ns::MathMl), ("<svg><g>", Ns::Svg), ("<math><mrow>", Ns::MathMl)] {
+            for a in attrs {
+                for slash in ["", "/"] {
+                    let tag = format!("<font{a}{slash}>");
+                    let breakout = ["color", "face", "size"].iter().any(|k| a.to_ascii_lowercase().split(|c: char| c == ' ' || c == '=').any(|w| w == *k));
+                    jobs.push((pre, tag, if breakout { Ns::Html } else { fns }));
+                }
+            }
+        }
+        par_for(jobs.len(), 1, |j| {
+            let (pre, tag, ns) = &jobs[j];
+            let mut doc = pre.as_bytes().to_vec();
+            let start = doc.len();
+            doc.extend_from_slice(tag.as_bytes());
+            doc.extend_from_slice(b"x<b>");
+            for cut in std::iter::once(None).chain((start + 1..start + tag.len()).map(Some)) {
+                let (m, calls, _) = check_read(&p, &doc, start, tag.len(), *ns, cut);
+                ctx.exec(calls);
+                ctx.validated(1);
+                if let Some(msg) = m {
+                    let (p2, d2, tl, ns2) = (Prepared::new(p.cfg.clone()).unwrap(), doc.clone(), tag.len(), *ns);
+                    ctx.violation(format!("`{}`: {msg}", lossy(&doc)), json!({"kind": "font", "doc_lossy": lossy(&doc), "cut": cut}), &|| check_read(&p2, &d2, start, tl, ns2, cut).0.map(|m| format!("`{}`: {m}", lossy(&d2))));
+                }
+            }
+        });
+        ctx.level_done("<font> with / without color, face, size attributes (8 attribute lists x {plain, self-closing}) in 4 svg / math contexts x every cut: HTML element iff it has one of the three attributes");
+    }
     // ESI tags: void only when the setting is on
     {
         const ESI_NAMES: &[&str] = &["esi:include", "esi:comment", "esi:remove", "ESI:Include", "esi:includes", "esi:", "esi-include", "xesi:include"];
